@@ -219,3 +219,7 @@ def run(ctx):
             # shared time helpers: their rules (instant preserved, truncation, form) are necessary here too
             import c09
             common.borrow_rules(rep, lambda: (c09.single(cfg, crate, rep), c09.helper(cfg, crate, rep)), "C09.", "C08.time")
+            # "an authority key identifier derived from the issuer key by the chosen method": the CRL writer goes through
+            # KeyIdMethod::derive, which must return pre-specified identifiers unchanged and cut digests to 20 octets
+            import c02
+            common.borrow_rules(rep, lambda: c02.check_derive(cfg, crate, rep), "C02.", "C08.derive")
